@@ -126,11 +126,19 @@ class AnalysisReader(PyReader):
                 if fld.uniform:
                     return var(f"div{fld.tag}")
                 return app(f"div{fld.tag}", *[var(x) for x in SYSTEMS[fld.system.kind]])
-        if name == "integrate" and len(n.args) >= 2:
+        if name == "integrate" and len(n.args) >= 2 and not isinstance(n.args[0], ast.Starred):
             integrand = self.ev(n.args[0], env, fns)
             limits = []
+            raw = []
             for a in n.args[1:]:
-                lim = self.ev(a, env, fns)
+                if isinstance(a, ast.Starred):
+                    more = self.ev(a.value, env, fns)  # integrate(f, *ranges)
+                    if not isinstance(more, list):
+                        self.fail(a, "starred integration limits that are no sequence")
+                    raw += [(a, x) for x in more]
+                else:
+                    raw.append((a, self.ev(a, env, fns)))
+            for a, lim in raw:
                 if not (isinstance(lim, list) and len(lim) == 3):
                     self.fail(a, "integration limits are not a (variable, from, to) triple")
                 limits.append(tuple(lim))
